@@ -1286,6 +1286,10 @@ pub struct C11;
 struct C11Extra {
     /// argmap files: (relative path, json text)
     argmap_files: Vec<(String, String)>,
+    /// (target, command) pairs whose `definitions` path names a file that does not exist while a file of the same
+    /// stem lies in the command directory: whatever the tool reports for them, it must not run that file
+    #[serde(default)]
+    dangling: Vec<(String, String)>,
 }
 
 const ARG_POOL: [&str; 14] = ["plain", "with space", "", "\"quoted\"", "it's", "$HOME", "*", "a\nb", "ünï-✓", "--flag=value", "-x", "\\back\\slash", "tab\there", "; rm -rf /"];
@@ -1317,6 +1321,8 @@ fn gen_c11(seed: u64, idx: usize, _tier: Tier) -> (RunScenario, C11Extra) {
     let mut argmap_files = vec![];
     // an argmap name may have a directory component (`--argmaps env/linux` reads <argmap dir>/env/linux.json)
     let maps = ["dev", "ci", "extra", "env/linux"];
+    let dangling_world = rng.chance(1, 12);
+    let mut dangling: Vec<(String, String)> = vec![];
     for i in 0..n {
         let path = if i > 0 && rng.chance(1, 5) { format!("t00/n{:02}", i) } else { format!("t{:02}", i) };
         let mut t = crate::world::TargetSpec { path: path.clone(), ..Default::default() };
@@ -1345,6 +1351,12 @@ fn gen_c11(seed: u64, idx: usize, _tier: Tier) -> (RunScenario, C11Extra) {
                     // explicit definition path, inside or outside the target
                     let rel = if rng.chance(1, 2) { format!("{}/tools/{}-impl", path, c) } else { format!("tools/{}-{}.bin", c, i) };
                     t.defs.push((c.clone(), rel.clone()));
+                    if dangling_world && dangling.is_empty() {
+                        // the defined file was renamed away; a same-stem file sits in the command directory
+                        dangling.push((path.clone(), c.clone()));
+                        cmd_files.push(CmdFile { target: path.clone(), command: format!("{}__decoy", c), rel: format!("{}/{}.sh", cdir, c), exec: true, broken: false });
+                        continue;
+                    }
                     cmd_files.push(CmdFile { target: path.clone(), command: c.clone(), rel, exec: true, broken: false });
                     // a decoy in the command directory that must NOT be used
                     if rng.chance(1, 2) {
@@ -1465,7 +1477,7 @@ fn gen_c11(seed: u64, idx: usize, _tier: Tier) -> (RunScenario, C11Extra) {
     script.sched_seed = rng.next_u64();
     script.workers = Some(*rng.pick(&[1u32, 4, 16]));
     script.rand_seed = Some(rng.next_u64() % 1_000_000);
-    (RunScenario { spec, mode, script, hang_ms: default_hang_ms() }, C11Extra { argmap_files })
+    (RunScenario { spec, mode, script, hang_ms: default_hang_ms() }, C11Extra { argmap_files, dangling })
 }
 
 fn expected_argv(sc: &RunScenario, ex: &C11Extra, command: &str, target: &str) -> Vec<Vec<u8>> {
@@ -1535,6 +1547,19 @@ impl Property for C11 {
         if let Some(h) = &tr.hang {
             out.advisories.push(format!("hang {}", h));
             return Outcome::skip("run_hung(other property)");
+        }
+        if !ex.dangling.is_empty() {
+            // a definition that names a missing file: the run may report what it likes for that pair (and stop
+            // there); the same-stem file in the command directory is not the command
+            out.fault("definition_path_names_a_missing_file", 1);
+            for (t, c) in &ex.dangling {
+                if tr.helpers.iter().any(|h| h.target == *t && h.command == format!("{}__decoy", c)) {
+                    out.violate("exe", "decoy_used", format!("'{}' for '{}': commands.definitions names a file that does not exist, and the file of the same stem in the command directory was executed instead", c, t));
+                }
+            }
+            out.nontrivial = true;
+            out.signature = format!("dangling|{:?}", ex.dangling);
+            return out;
         }
         let doc = match tr.result_json() {
             Some(d) => d,
